@@ -354,17 +354,40 @@ def _maybe_float(value: Any) -> Any:
         return value
 
 
-def _default_matches_schema(default: Any, schema: Schema) -> bool:
+def _default_matches_schema(
+    default: Any, schema: Schema, named_schemas: Optional[NamedSchemas] = None
+) -> bool:
     # TODO: Consider using the validate functions here
+    if isinstance(schema, str) and schema not in PRIMITIVES and named_schemas:
+        # a reference to a named type: look at its definition
+        schema = named_schemas.get(schema, schema)
+    if isinstance(schema, list):
+        return any(_default_matches_schema(default, s, named_schemas) for s in schema)
+    if isinstance(schema, dict):
+        schema_type = schema["type"]
+        if schema_type == "array":
+            return isinstance(default, list)
+        if schema_type in ("map", "record", "error"):
+            return isinstance(default, dict)
+        if schema_type in ("enum", "fixed"):
+            return isinstance(default, str)
+        schema = schema_type
+    is_bool = isinstance(default, bool)
     if (
         (schema == "null" and default is not None)
-        or (schema == "boolean" and not isinstance(default, bool))
+        or (schema == "boolean" and not is_bool)
         or (schema == "string" and not isinstance(default, str))
         or (schema == "bytes" and not isinstance(default, str))
-        or (schema == "double" and not isinstance(_maybe_float(default), float))
-        or (schema == "float" and not isinstance(_maybe_float(default), float))
-        or (schema == "int" and not isinstance(default, int))
-        or (schema == "long" and not isinstance(default, int))
+        or (
+            schema == "double"
+            and (is_bool or not isinstance(_maybe_float(default), float))
+        )
+        or (
+            schema == "float"
+            and (is_bool or not isinstance(_maybe_float(default), float))
+        )
+        or (schema == "int" and (is_bool or not isinstance(default, int)))
+        or (schema == "long" and (is_bool or not isinstance(default, int)))
     ):
         return False
     return True
@@ -397,7 +420,7 @@ def _parse_schema(
         ]
         if default is not NO_DEFAULT:
             for s in parsed_schemas:
-                if _default_matches_schema(default, s):
+                if _default_matches_schema(default, s, named_schemas):
                     break
             else:
                 _raise_default_value_error(default, schema, ignore_default_error)
@@ -416,6 +439,10 @@ def _parse_schema(
 
         if schema not in named_schemas:
             raise UnknownType(schema)
+
+        if default is not NO_DEFAULT:
+            if not _default_matches_schema(default, schema, named_schemas):
+                _raise_default_value_error(default, schema, ignore_default_error)
 
         if expand and "name" in named_schemas[schema]:
             # If `name` is in the schema, it has been fully resolved and so we
@@ -575,16 +602,7 @@ def _parse_schema(
         elif schema_type in PRIMITIVES:
             parsed_schema["type"] = schema_type
             if default is not NO_DEFAULT:
-                if (
-                    (schema_type == "null" and default is not None)
-                    or (schema_type == "boolean" and not isinstance(default, bool))
-                    or (schema_type == "string" and not isinstance(default, str))
-                    or (schema_type == "bytes" and not isinstance(default, str))
-                    or (schema_type == "double" and not isinstance(default, float))
-                    or (schema_type == "float" and not isinstance(default, float))
-                    or (schema_type == "int" and not isinstance(default, int))
-                    or (schema_type == "long" and not isinstance(default, int))
-                ):
+                if not _default_matches_schema(default, schema_type):
                     _raise_default_value_error(
                         default, schema_type, ignore_default_error
                     )
